@@ -285,7 +285,7 @@ def replay_once(t, exe, path, workdir, known_sigs, idx=0):
         cmd = [exe, '--replay', path, '--out', out, '--known', known_file] + t.get('args', [])
         env = san_env(t.get('env'))
     try:
-        r = subprocess.run(cmd, stdout=subprocess.PIPE, stderr=subprocess.STDOUT, text=True, env=env, cwd=workdir, timeout=t.get('replay_timeout', 300), errors='replace')
+        r = subprocess.run(cmd, stdout=subprocess.PIPE, stderr=subprocess.STDOUT, text=True, env=env, cwd=workdir, timeout=t.get('replay_timeout', 150), errors='replace')
         rc, text = r.returncode, r.stdout
     except subprocess.TimeoutExpired as e:
         rc, text = 'timeout', (e.stdout or b'').decode('utf-8', 'replace') if isinstance(e.stdout, bytes) else (e.stdout or '')
